@@ -45,6 +45,8 @@ def plan(tier, seed):
     m = 16 if tier == "quick" else 150
     specs += [{"part": "handover", "seed": seed, "i": i, "tier": tier} for i in range(m)]
     specs += [{"part": "registry", "seed": seed, "i": i, "tier": tier} for i in range(8 if tier == "quick" else 60)]
+    k = 40 if tier == "quick" else 1500
+    specs += [{"part": "indelivery", "seed": seed, "lo": i, "hi": min(k, i + 20)} for i in range(0, k, 20)]
     return specs
 
 
@@ -557,6 +559,288 @@ def part_registry(spec, res):
         execute(p, "sampled")
 
 
+# --------------------------------------------------------------------------- calls made while a message is being delivered
+
+
+_HERE = gen_history.__code__.co_filename
+
+
+def _label(m):
+    return m["n"] if "n" in m else "%s/%s" % (m.get("action_type"), m.get("action_status"))
+
+
+def gen_indelivery(rng, i):
+    if i % 5 < 3:
+        nfirst = rng.choice([1, 1, 1, 2])
+        return {"kind": "late_sink", "nprebuf": rng.choice([0, 1, 3]), "nfirst": nfirst, "drop_one_first": nfirst == 2 and rng.random() < 0.5,
+                "before": rng.randint(0, 2), "after": rng.randint(1, 3), "mode": rng.choice(["self", "thread"]), "nlate": rng.choice([1, 1, 2]),
+                "in_action": rng.random() < 0.25}
+    nprebuf = rng.randint(1, 3)
+    return {"kind": "globals_in_handover", "nprebuf": nprebuf, "at": rng.randrange(nprebuf), "nfirst": rng.choice([1, 1, 2]), "nloggers": rng.choice([1, 1, 2]),
+            "nmsg": rng.choice([1, 2]), "setter": rng.choice(["self", "thread"]), "prior_globals": rng.random() < 0.4}
+
+
+def late_sink_once(sc):
+    """Fresh process. A second sink is registered (by the destination itself, or by another thread) while the destination(s) registered
+    so far handle a message; returns what was logged in call order, where the registration returned, and every tape."""
+    import threading
+    seq = []  # labels of the messages in the order their log calls were made (one thread logs)
+    tapes = {}
+    state = {"reg_at": None, "timeout": None, "registered_when_triggered": None}
+
+    def sink(name):
+        tapes[name] = []
+
+        def d(m, name=name):
+            tapes[name].append(_label(m))
+        return d
+
+    def log(n):
+        seq.append(n)
+        log_message(message_type="d", n=n)
+
+    for k in range(sc["nprebuf"]):
+        log("pre%d" % k)
+    late = [sink("late%d" % k) for k in range(sc["nlate"])]
+    inside, added = threading.Event(), threading.Event()
+    trigger = "m%d" % sc["before"]
+    tapes["first0"] = []
+
+    def primary(m):
+        tapes["first0"].append(_label(m))
+        if _label(m) == trigger and state["reg_at"] is None and state["timeout"] is None:
+            if sc["mode"] == "self":
+                # e.g. a destination that opens a further sink the first time it sees a certain message
+                add_destinations(*late)
+                state["reg_at"] = len(seq)
+            else:
+                inside.set()
+                if not added.wait(30):
+                    state["timeout"] = "the thread registering a destination during a delivery did not finish"
+
+    def helper():
+        if inside.wait(60):
+            add_destinations(*late)
+            state["reg_at"] = len(seq)  # the logging thread is inside the destination: nothing was logged meanwhile
+            added.set()
+
+    first = [primary] + [sink("first%d" % k) for k in range(1, sc["nfirst"])]
+    th = None
+    if sc["mode"] == "thread":
+        th = threading.Thread(target=helper)
+        th.daemon = True
+        th.start()
+    add_destinations(*first)
+    registered = list(first)
+    if sc["drop_one_first"]:
+        remove_destination(first[1])
+        registered.remove(first[1])
+        state["dropped_at"] = len(seq)
+    for k in range(sc["before"]):
+        log("m%d" % k)
+    state["registered_when_triggered"] = len(registered)
+    if sc["in_action"]:
+        seq.append("d:act/started")
+        with start_action(action_type="d:act"):
+            log(trigger)
+            seq.append("d:act/succeeded")
+    else:
+        log(trigger)
+    for k in range(sc["after"]):
+        log("m%d" % (sc["before"] + 1 + k))
+    if th is not None:
+        inside.set()
+        th.join(30)
+    return {"seq": seq, "tapes": tapes, "state": state}
+
+
+def judge_late_sink(sc, data, problems):
+    seq, tapes, st = data["seq"], data["tapes"], data["state"]
+    if st["reg_at"] is None:
+        problems.append("the message that triggers the registration was never delivered to the registered destination (tape %s)" % tapes.get("first0"))
+        return
+    want_late = seq[st["reg_at"]:]
+    for k in range(sc["nlate"]):
+        got = tapes.get("late%d" % k)
+        if got != want_late:
+            early = [x for x in got if x not in want_late]
+            if early:
+                problems.append("destination late%d, registered while %r was being delivered, received %s: %s logged before its registration (after it: %s)" % (
+                    k, seq[st["reg_at"] - 1], got, early, want_late))
+            else:
+                problems.append("destination late%d received %s, but the messages logged after its registration returned are %s" % (k, got, want_late))
+    if tapes.get("first0") != seq:
+        problems.append("the destination of the first add_destinations call received %s, logged: %s" % (tapes.get("first0"), seq))
+    for k in range(1, sc["nfirst"]):
+        want = seq[:st["dropped_at"]] if (k == 1 and sc["drop_one_first"]) else seq
+        if tapes.get("first%d" % k) != want:
+            problems.append("destination first%d received %s, expected %s" % (k, tapes.get("first%d" % k), want))
+
+
+def _wait_blocked_or_finished(threads, bound=3.0):
+    """Bounded poll: returns the threads that are still alive and sit at the same instruction of the same frame, outside this file, for six
+    consecutive looks (blocked, as far as one can tell). A thread that arrives late only makes the scenario less demanding."""
+    import sys
+    import time
+    deadline = time.monotonic() + bound
+    last, stable = {}, {}
+    while True:
+        frames = sys._current_frames()
+        blocked, pending = [], False
+        for t in threads:
+            if not t.is_alive():
+                continue
+            f = frames.get(t.ident)
+            sig = None if f is None or f.f_code.co_filename == _HERE else (id(f), f.f_lasti)
+            if sig is not None and last.get(t.name) == sig:
+                stable[t.name] = stable.get(t.name, 0) + 1
+            else:
+                stable[t.name] = 0
+            last[t.name] = sig
+            if stable[t.name] >= 6:
+                blocked.append(t)
+            else:
+                pending = True
+        del frames
+        if not pending or time.monotonic() > deadline:
+            return blocked
+        time.sleep(0.004)
+
+
+def globals_in_handover_once(sc):
+    """Fresh process. While the start-up buffer is replayed into the destinations of the first add_destinations call, one of them starts
+    threads that log (their calls wait for the hand-over), waits until they are blocked or done, and sets a global field (itself, or in a
+    further thread it joins). Returns one append-only event list: deliveries and returns of add_global_fields in the order they happened."""
+    import threading
+    events = []
+    state = {"fired": False, "timeout": None, "waiting": []}
+    returned = {t: [] for t in range(sc["nloggers"])}
+    if sc["prior_globals"]:
+        add_global_fields(g0=3)
+        events.append(["globals", {"g0": 3}])
+    for k in range(sc["nprebuf"]):
+        log_message(message_type="pre", n="pre%d" % k)
+
+    def logger(t):
+        def run():
+            for s_ in range(sc["nmsg"]):
+                log_message(message_type="late", n="t%d.%d" % (t, s_))
+                returned[t].append("t%d.%d" % (t, s_))
+        return run
+
+    threads = [threading.Thread(target=logger(t), name="logger%d" % t) for t in range(sc["nloggers"])]
+
+    def set_field():
+        add_global_fields(run=7)
+        events.append(["globals", {"run": 7}])
+
+    def record(name, m):
+        events.append(["deliver", name, _label(m), {k: m[k] for k in ("g0", "run") if k in m}])
+
+    def first0(m):
+        record("first0", m)
+        if _label(m) == "pre%d" % sc["at"] and not state["fired"]:
+            state["fired"] = True
+            for t in threads:
+                t.daemon = True
+                t.start()
+            blocked = _wait_blocked_or_finished(threads)
+            if sc["setter"] == "self":
+                set_field()
+            else:
+                g = threading.Thread(target=set_field)
+                g.daemon = True
+                g.start()
+                g.join(30)
+                if g.is_alive():
+                    state["timeout"] = "the thread calling add_global_fields during the hand-over did not finish"
+            # loggers whose first call had not returned when the field was set: their message is delivered afterwards
+            state["waiting"] = ["t%d.0" % i for i, t in enumerate(threads) if t in blocked and t.is_alive() and not returned[i]]
+
+    def other(m):
+        record("first1", m)
+
+    first = [first0, other][: sc["nfirst"]]
+    if sc["nfirst"] == 2 and sc["at"] % 2:
+        first.reverse()
+    add_destinations(*first)
+    for t in threads:
+        if t.ident is not None:
+            t.join(30)
+            if t.is_alive():
+                state["timeout"] = "a logging thread did not finish after the hand-over"
+    log_message(message_type="late", n="after")
+    return {"events": events, "state": state, "returned": {str(t): v for t, v in returned.items()}}
+
+
+def judge_globals_in_handover(sc, data, problems):
+    events, st = data["events"], data["state"]
+    if not st["fired"]:
+        problems.append("buffered message pre%d was not replayed into the destination of the first add_destinations call" % sc["at"])
+    fields = {}
+    due = {}  # message -> the fields set before its delivery began (a message is handed to the destinations one after the other)
+    tapes = {"first%d" % k: [] for k in range(sc["nfirst"])}
+    reached = 0
+    for ev in events:
+        if ev[0] == "globals":
+            fields.update(ev[1])
+            continue
+        _, name, label, got = ev
+        tapes[name].append(label)
+        if label not in due:
+            due[label] = dict(fields)
+        for k, v in due[label].items():
+            if got.get(k) != v:
+                problems.append("message %r was delivered to %s after add_global_fields(%s=%r) had returned but does not carry the field (has %s)" % (label, name, k, v, got))
+        if name == "first0" and "run" in fields and label in st["waiting"]:
+            reached += 1
+    pres = ["pre%d" % k for k in range(sc["nprebuf"])]
+    for name, tape in tapes.items():
+        if tape[: len(pres)] != pres or tape[-1:] != ["after"] or tape.count("after") != 1:
+            problems.append("%s received %s: expected the buffered messages %s first and 'after' once, last" % (name, tape, pres))
+        for t, ret in data["returned"].items():
+            got = [x for x in tape if x.startswith("t%s." % t)]
+            if got != ret:
+                problems.append("%s received %s from logging thread %s, whose calls %s returned (lost, duplicated or re-ordered across the hand-over)" % (name, got, t, ret))
+    return reached
+
+
+def part_indelivery(spec, res):
+    c = res["counters"]
+    for i in range(spec["lo"], spec["hi"]):
+        rng = random.Random("%s:C12:d:%d" % (spec["seed"], i))
+        sc = gen_indelivery(rng, i)
+        fn = late_sink_once if sc["kind"] == "late_sink" else globals_in_handover_once
+        kind, data = call_in_fork(lambda: fn(sc), timeout=150)
+        res["evals"] += 1
+        c["indelivery_scenarios"] = c.get("indelivery_scenarios", 0) + 1
+        if kind in ("timeout", "died"):
+            res["inconclusive"] = "in-delivery child %s" % kind
+            continue
+        problems = []
+        if kind != "ok":
+            problems.append("running the in-delivery scenario failed: %s" % str(data)[-500:])
+        elif data["state"]["timeout"]:
+            res["inconclusive"] = data["state"]["timeout"]
+            continue
+        elif sc["kind"] == "late_sink":
+            judge_late_sink(sc, data, problems)
+            if data["state"]["reg_at"] is not None:
+                c["registrations_completed_during_a_delivery"] = c.get("registrations_completed_during_a_delivery", 0) + 1
+                if data["state"]["registered_when_triggered"] == 1:
+                    c["registrations_completed_inside_the_only_destination"] = c.get("registrations_completed_inside_the_only_destination", 0) + 1
+                res["nontrivial"].append(h(sc))
+        else:
+            n = judge_globals_in_handover(sc, data, problems)
+            c["messages_waiting_for_the_handover_when_a_global_field_was_set"] = c.get("messages_waiting_for_the_handover_when_a_global_field_was_set", 0) + n
+            if n:
+                res["nontrivial"].append(h(sc))
+        if res.get("sample") is None:
+            res["sample"] = {"part": "indelivery", "scenario": sc}
+        if problems and len(res["violations"]) < 3:
+            res["violations"].append({"msg": problems[0], "mech": None, "detail": {"part": "indelivery", "scenario": sc, "problems": problems[:5], "observed": data if kind == "ok" else None}})
+
+
 def run_case(spec):
     if spec["part"] == "registry":
         res = {"evals": 0, "nontrivial": [], "counters": {}, "violations": [], "sample": None, "sets": {"interleavings": [], "preemption_lines": []}}
@@ -565,6 +849,8 @@ def run_case(spec):
     res = {"evals": 0, "nontrivial": [], "counters": {}, "violations": [], "sample": None, "sets": {"interleavings": [], "preemption_lines": []}}
     if spec["part"] == "history":
         part_history(spec, res)
+    elif spec["part"] == "indelivery":
+        part_indelivery(spec, res)
     else:
         part_handover(spec, res)
     return res
@@ -576,6 +862,10 @@ def finalize(agg, tier):
         return "too few histories / schedules"
     if c.get("histories_over_1000_buffered", 0) < 5:
         return "fewer than 5 histories with more than 1000 buffered messages"
+    if c.get("registrations_completed_inside_the_only_destination", 0) < 1:
+        return "no add_destinations call completed while the only registered destination was handling a message"
+    if c.get("messages_waiting_for_the_handover_when_a_global_field_was_set", 0) < 1:
+        return "no log call was waiting for the hand-over when a global field was set during the replay of the start-up buffer"
     lines = agg["sets"].get("preemption_lines", {})
     if not any(l.startswith("_output.py") for l in lines):
         return "no preemption landed inside eliot/_output.py"
